@@ -1,6 +1,7 @@
 package c19
 
 import (
+	"encoding/json"
 	"fmt"
 	"net/url"
 	"strings"
@@ -9,7 +10,7 @@ import (
 	"github.com/google/pprof/verifh/vk"
 )
 
-var valueMenu = []string{"true", "false", "7", "0", "-3", "0.25", "a", "x y&c=d%+#ü", "cum", "lines", "k", ""}
+var valueMenu = []string{"true", "false", "7", "0", "-3", "0.25", "0.123456789", "0.015625001", "1e-12", "a", "x y&c=d%+#ü", "cum", "lines", "k", ""}
 
 // urlRoundTrip: for every saved config field and every value of the menu that
 // the option parser accepts (and every pair of fields in the thorough tier):
@@ -107,6 +108,35 @@ func urlRoundTrip(c *vk.Ctx) {
 		if err != nil {
 			c.Violationf("url-roundtrip/restore-error", w, "applying %q: %v", menuURL, err)
 			return
+		}
+		// the same through the stored form alone: what the link restores, written the way the settings
+		// file writes it, is what the file holds for A (numbers compared as numbers, not as pprof prints them)
+		if rj, err := driver.VerifURLToJSON(mu.Query()); err == nil {
+			var rm, dm map[string]any
+			json.Unmarshal([]byte(rj), &rm)
+			dj, _ := driver.VerifURLToJSON(url.Values{})
+			json.Unmarshal([]byte(dj), &dm)
+			if list, _, rerr := readState(); rerr == nil {
+				for _, e := range list {
+					if e.Name != "A" {
+						continue
+					}
+					var sm map[string]any
+					json.Unmarshal([]byte(e.Raw), &sm)
+					for k, rv := range rm {
+						if k == "name" {
+							continue
+						}
+						sv, stored := sm[k]
+						if !stored {
+							sv = dm[k] // stored empty = unset: takes its default
+						}
+						if fmt.Sprint(sv) != fmt.Sprint(rv) {
+							c.Violationf("url-roundtrip/stored-form-differs/"+k, w, "stored for A: %s\nrestored via %q: %s", e.Raw, menuURL, rj)
+						}
+					}
+				}
+			}
 		}
 		for _, f := range fields {
 			if f[2] != "true" {
